@@ -734,6 +734,25 @@ pub fn parse_hir(re: &str) -> Result<Hir, String> {
     regex_syntax::ParserBuilder::new().unicode(true).utf8(true).build().parse(re).map_err(|e| e.to_string())
 }
 
+/// A repetition whose operand is itself a repetition, e.g. `(?:a{2})?`
+/// (finding F15: regex-syntax prints it without the group).
+pub fn has_nested_repetition(h: &Hir) -> bool {
+    use regex_syntax::hir::HirKind;
+    match h.kind() {
+        HirKind::Empty | HirKind::Literal(_) | HirKind::Class(_) | HirKind::Look(_) => false,
+        HirKind::Repetition(r) => matches!(r.sub.kind(), HirKind::Repetition(_)) || has_nested_repetition(&r.sub),
+        HirKind::Capture(c) => has_nested_repetition(&c.sub),
+        HirKind::Concat(v) | HirKind::Alternation(v) => v.iter().any(has_nested_repetition),
+    }
+}
+
+/// The regex as regex-syntax prints its HIR, if the original has a nested
+/// repetition (None otherwise): the reading that explains finding F15.
+pub fn printed_if_nested(re: &str) -> Option<String> {
+    let h = parse_hir(re).ok()?;
+    has_nested_repetition(&h).then(|| h.to_string())
+}
+
 pub struct FullMatcher {
     full: meta::Regex,
     prefix: meta::Regex,
